@@ -622,6 +622,10 @@ class OodBuild(Exception):
     """The (moved) feature set is outside the domain of the property: no grid can be built over it."""
 
 
+# set by run_case: asked with the index as soon as it exists, when the features that remain are registered afterwards
+_WARM = [None]
+
+
 def _build(case):
     from tracklib.core.track_collection import TrackCollection
     from tracklib.core.spatial_index import SpatialIndex
@@ -669,6 +673,10 @@ def _build(case):
             if stage is not None and k == stage:
                 if how in ("index", "incremental"):
                     M.call(net.createSpatialIndex, res, case["margin"], False)
+                    if how == "incremental" and _WARM[0] is not None and hr.random() < 0.7:
+                        # call history on the index object: the user's queries are asked BEFORE the remaining edges
+                        # are registered (and again afterwards, when they are judged)
+                        _WARM[0](net.spatial_index)
                 else:
                     M.call(net.bbox)
                 M.CTX.count("network_staged_build:" + how)
@@ -745,7 +753,22 @@ def run_case(case, ctx):
     sig = (case["kind"], tuple(res) if res else None, margin, tuple(tuple(tuple(p) for p in t) for t in tracks))
 
     LAST_BROKEN.clear()
+
+    def warm(si0):
+        for q in case["queries"]:
+            if q["q"] == "pt":
+                M.call(si0.request, ENUCoords(q["p"][0], q["p"][1]))
+                M.call(si0.neighborhood, ENUCoords(q["p"][0], q["p"][1]))
+            elif q["q"] == "nbh":
+                u0 = M.call(si0.groundDistanceToUnits, q["d"])
+                if not M.is_raised(u0):
+                    M.call(si0.neighborhood, ENUCoords(q["p"][0], q["p"][1]), None, u0)
+            elif q["q"] == "seg":
+                M.call(si0.request, [ENUCoords(q["a"][0], q["a"][1]), ENUCoords(q["b"][0], q["b"][1])])
+        ctx.count("index_queried_before_the_remaining_edges_were_added")
+    _WARM[0] = warm
     built = M.call(_build, case)
+    _WARM[0] = None
     if M.is_raised(built) and isinstance(built.exc, OodBuild):
         return ood(str(built.exc))
     if M.is_raised(built):
@@ -983,7 +1006,7 @@ def classify(case, witness):
 # floors for the call-history workloads added in session 3 (a run in which they were silently skipped is inconclusive)
 _floors_base = floors
 _FLOORS_EXTRA = {'classes': {'profile_dense': 20},
-                 'counters': {'edge_identifiers:int_1_to_N': 100, 'point_query_through_neighborhood_with_default_unit': 5000,
+                 'counters': {'edge_identifiers:int_1_to_N': 100, 'index_queried_before_the_remaining_edges_were_added': 25, 'point_query_through_neighborhood_with_default_unit': 5000,
                               'returned_list_modified_by_the_caller': 20000, 'edge_identifiers:digit_strings': 50,
                               'network_staged_build:index': 50, 'network_staged_build:bbox': 20,
                               'network_staged_build:incremental': 30}}
